@@ -3,7 +3,7 @@
    OCaml's own; N, positive, nat, ascii, string, comparison stay Coq datatypes. *)
 Require Extraction.
 Require ExtrOcamlBasic.
-From RC Require Import Base.Res Base.Wire Model.Enums Gen.EnumTables Gen.Merge Model.Open Model.Negotiate Gen.CmpChain Model.Select Model.Nlri Model.NlriOrd Model.AsPath Gen.AttrRules Model.Attr Model.Update Gen.BuilderConsts Model.Builder Model.PaMap Gen.CapRules Model.OpenMsg Gen.FsmTable Model.Fsm Base.Text Gen.CommTables Model.Comm Gen.TimerConsts Model.Timer Model.Bmp.
+From RC Require Import Base.Res Base.Wire Model.Enums Gen.EnumTables Gen.Merge Model.Open Model.Negotiate Gen.CmpChain Model.Select Model.Nlri Model.NlriOrd Model.AsPath Gen.AttrRules Model.Attr Model.Update Gen.BuilderConsts Model.Builder Model.PaMap Gen.CapRules Model.OpenMsg Gen.FsmTable Model.Fsm Base.Text Gen.CommTables Model.Comm Gen.TimerConsts Model.Timer Model.Bmp Model.Mrt.
 Extraction Language OCaml.
 Set Extraction KeepSingleton.
 Extraction "../ocaml/model.ml"
@@ -40,6 +40,7 @@ Extraction "../ocaml/model.ml"
   OpenMsg.ob_add_cap OpenMsg.ob_four_octet OpenMsg.ob_add_mp OpenMsg.ob_add_addpath OpenMsg.ob_finish Wire.index
   Fsm.fsm_step Fsm.handle_msg Fsm.tick_msg Fsm.init Fsm.dummy_open Fsm.parse_frame Fsm.feed Fsm.read_message Fsm.upd_st Fsm.upd_conn Fsm.push_app Negotiate.get_addpath
   Negotiate.sc_modern
+  Mrt.rib_entries Mrt.tables Mrt.messages
   Comm.comm_from_raw Comm.comm_raw Comm.comm_display Comm.comm_from_str Comm.comm_asn Comm.comm_to_wellknown
   Comm.std_display Comm.std_from_str Comm.std_is_wellknown Comm.std_is_reserved Comm.std_is_private Comm.std_to_wellknown
   Comm.wk_to_u32 Comm.wk_from_str Comm.std_asn Comm.std_tag Comm.ext_display Comm.ext_from_str Comm.ext_types
@@ -51,4 +52,5 @@ Extraction "../ocaml/model.ml"
   Bmp.a_stats Bmp.a_pd_reason Bmp.a_pd_notification Bmp.a_pd_fsm Bmp.a_pu_local_address Bmp.a_pu_local_port Bmp.a_pu_remote_port
   Bmp.a_pu_opens Bmp.a_pu_open_sent Bmp.a_pu_open_rcvd Bmp.a_pu_information_tlvs Bmp.a_init_tlvs Bmp.a_term_information
   Negotiate.sc_modern
+  Mrt.rib_entries Mrt.tables Mrt.messages
   EnumTables.all_enum_widths EnumTables.all_enum_names.
